@@ -250,12 +250,13 @@ fn conv_cfgs(tier: Tier, transpose: bool) -> Vec<ConvCfg> {
 }
 
 fn conv_class(c: &ConvCfg) -> String {
-    if !c.kernel_shape {
-        return "kernel_shape absent".to_string();
+    // without kernel_shape the loader cannot size the defaults of strides/dilations/pads
+    let needs_default = c.strides.is_none() || c.dilations.is_none() || (c.pads.is_none() && !matches!(c.auto_pad, Some("SAME_UPPER") | Some("SAME_LOWER")));
+    if !c.kernel_shape && needs_default {
+        return "kernel_shape absent and strides, dilations or pads left to their defaults".to_string();
     }
     format!(
-        "{}-D; {}",
-        c.x.len() - 2,
+        "{}",
         match (&c.pads, c.auto_pad) {
             (Some(p), _) if p.iter().all(|v| *v == 0) => "pads zero".to_string(),
             (Some(p), _) if { let n = p.len() / 2; (0..n).all(|i| p[i] == p[i + n]) } => "pads symmetric".into(),
@@ -338,7 +339,20 @@ fn conv_integer(tier: Tier) -> Vec<Case> {
                     continue;
                 }
                 let mut case = conv_case("ConvInteger", &c, x.clone(), w.clone(), extra);
-                case.class = zn.to_string();
+                // input features that select different code paths in an im2col + GEMM implementation
+                let mut feats: Vec<&str> = Vec::new();
+                if c.auto_pad == Some("SAME_LOWER") {
+                    feats.push("auto_pad SAME_LOWER");
+                }
+                let padded = matches!(c.auto_pad, Some("SAME_UPPER") | Some("SAME_LOWER")) || c.pads.as_ref().map(|p| p.iter().any(|v| *v > 0)).unwrap_or(false);
+                let x_zp_effective = if xdt == Dt::U8 { true } else { matches!(zn, "x_zero_point scalar" | "both zero points scalar" | "w_zero_point per channel") };
+                if padded && x_zp_effective {
+                    feats.push("padding with uint8 input or non-zero x_zero_point");
+                }
+                if c.x[0] > 1 && zn != "zero points absent" && zn != "x_zero_point scalar" {
+                    feats.push("batch > 1 with w_zero_point");
+                }
+                case.class = if feats.is_empty() { "plain".to_string() } else { feats.join("; ") };
                 case.vclass = String::new();
                 out.push(case);
             }
@@ -350,8 +364,8 @@ fn conv_integer(tier: Tier) -> Vec<Case> {
             let x = fill_table(xdt, &xs, &[3.0, 0.0, 255.0, 17.0, 128.0, 1.0], 1, 0);
             let w = if wdt == Dt::U8 { fill_table(wdt, &ws, &[1.0, 200.0, 0.0, 7.0], 1, 1) } else { fill_table(wdt, &ws, &[1.0, -2.0, 127.0, -128.0, 0.0], 1, 1) };
             let ks: Vec<i64> = ws[2..].iter().map(|v| *v as i64).collect();
-            out.push(Case::new("ConvInteger", "w_zero_point per channel", vec![Some(x.clone()), Some(w.clone()), Some(RT::scalar(xdt, 1.0)), Some(fill_table(wdt, &[ws[0]], &[1.0, 0.0, 3.0], 1, 0))]).attr_is("kernel_shape", &ks).vclass(""));
-            out.push(Case::new("ConvInteger", "both zero points scalar", vec![Some(x), Some(w), Some(RT::scalar(xdt, 1.0)), Some(RT::scalar(wdt, 2.0))]).attr_is("kernel_shape", &ks).vclass(""));
+            out.push(Case::new("ConvInteger", "w_zero_point per channel with more output channels than one packing panel", vec![Some(x.clone()), Some(w.clone()), Some(RT::scalar(xdt, 1.0)), Some(fill_table(wdt, &[ws[0]], &[1.0, 0.0, 3.0], 1, 0))]).attr_is("kernel_shape", &ks).vclass(""));
+            out.push(Case::new("ConvInteger", "plain", vec![Some(x), Some(w), Some(RT::scalar(xdt, 1.0)), Some(RT::scalar(wdt, 2.0))]).attr_is("kernel_shape", &ks).vclass(""));
         }
     }
     out
@@ -399,8 +413,8 @@ fn pool(op: &'static str, tier: Tier) -> Vec<Case> {
                                 if n_c.0 == 2 && (e.is_some() || ceil == Some(0)) {
                                     continue;
                                 }
-                                let cls = format!(
-                                    "1-D; {}; ceil_mode {}{}",
+                                let cls = if s.is_none() { "strides absent".to_string() } else { format!(
+                                    "{}{}{}",
                                     match (&pads, ap) {
                                         (Some(p), _) if p.iter().all(|v| *v == 0) => "pads zero".to_string(),
                                         (Some(p), _) if p[0] == p[1] => "pads symmetric".into(),
@@ -408,9 +422,9 @@ fn pool(op: &'static str, tier: Tier) -> Vec<Case> {
                                         (None, None) => "pads absent".into(),
                                         (None, Some(a)) => format!("auto_pad {a}"),
                                     },
-                                    opt_name(ceil),
-                                    if is_max { String::new() } else { format!("; count_include_pad {}", opt_name(e)) }
-                                );
+                                    if ceil == Some(1) { "; ceil_mode 1" } else { "" },
+                                    if !is_max && e == Some(1) { "; count_include_pad 1" } else { "" }
+                                ) };
                                 let mut c = Case::new(op, cls, vec![Some(x.clone())]).attr_is("kernel_shape", &[k as i64]);
                                 if let Some(s) = s {
                                     c = c.attr_is("strides", &[s]);
@@ -451,17 +465,17 @@ fn pool(op: &'static str, tier: Tier) -> Vec<Case> {
                             if is_max && e.is_some() {
                                 continue;
                             }
-                            let cls = format!(
-                                "2-D; {}; ceil_mode {}{}",
+                            let cls = if s.is_none() { "strides absent".to_string() } else { format!(
+                                "{}{}{}",
                                 match (&pads, ap) {
                                     (Some(p), _) if p[0] == p[2] && p[1] == p[3] => "pads symmetric".to_string(),
                                     (Some(_), _) => "pads asymmetric".into(),
                                     (None, None) => "pads absent".into(),
                                     (None, Some(a)) => format!("auto_pad {a}"),
                                 },
-                                opt_name(ceil),
-                                if is_max { String::new() } else { format!("; count_include_pad {}", opt_name(e)) }
-                            );
+                                if ceil == Some(1) { "; ceil_mode 1" } else { "" },
+                                if !is_max && e == Some(1) { "; count_include_pad 1" } else { "" }
+                            ) };
                             let mut c = Case::new(op, cls, vec![Some(x.clone())]).attr_is("kernel_shape", &k);
                             if let Some(s) = &s {
                                 c = c.attr_is("strides", s);
